@@ -29,6 +29,10 @@ CHECKS = {
          "Sessions with call/cc at operand, tail and nested positions; continuations escape, return normally, are stored in globals and re-entered 0-3 times (counter-guarded) from the same form, from procedures, loops, for-each callbacks and later top-level forms. Values, failures and output are compared form by form with the reference interpreter in three VMs.",
          "Trusts the reference interpreter's continuation model (REPL semantics for the bottom frame, pinned by the suite). Continuations receive exactly one value; map callbacks neither capture nor invoke continuations.",
          "DESIGN.md section 4, C05"),
+ "C06": ("exhaustive / sampled enumeration of single calls (every global procedure of the running Vm x arity 0..5 x a palette of boundary values of every kind) and proptest-driven text generators (random Unicode, token soup, mutated corpus programs, an evaluation-oriented soup) against a totality oracle: no panic (catch_unwind + hook), no abort or stall (journal + watchdog, instruction budgets), every Err renders, every value renders in display and write mode, the same Vm then evaluates canary forms correctly",
+         "Structured domain: each of the ~168 global procedures (builtins and prelude procedures, found at run time with procedure?) is called with every tuple of palette expressions at arity 0, 1 and 2 (97 values: empty / one-element / shared / nested / 60-deep containers; 0, +-1, i32 and i64 extremes +-1, bignums incl. a small value carried as a bignum, rationals incl. integer-valued and +-2^31 numerators, +-inf, NaN, -0.0, denormal; non-ASCII characters, strings and symbols; builtin, closure and variadic procedures, a stored continuation, macro objects, the unspecified value), and at arity 3..5 with sampled tuples aimed at the kinds each position wants (thorough: arity 3 exhaustive over the palette for the procedures that take three arguments); circular lists and self-containing vectors go to list?, length, equal?, display, write and are returned as the value of an evaluation. Each call runs through parse_text + prepare_eval + run_count(200000) in a reused Vm, followed by a define + closure call + reference canary in the same Vm. Text domain: scan, parse datum by datum, evaluate under an instruction budget (whole and in random slices of 1..40 instructions), highlight and highlight_check at random cursors. Exploration: 1.7 M cases quick / 52 M thorough; holds on all of them except the listed known findings (calls that never return on circular data, map/for-each without a list); the cells listed as never returning are not executed in the search tier, their reproducers run in the regression tier in a forked child.",
+         "Allocation sizes and exponents are bounded as in the statement (make-vector / make-string sizes <= 10^6, and size x container fill <= 10^6; expt exponents <= 10^6, <= 1000 for integer bases of magnitude > 2). Exhausting the 200000-instruction budget counts as a failure only in the structured domain, whose programs are single calls on small finite data with terminating argument procedures; in the text domain budget exhaustion, stalls, allocation failures and a diverging macro expansion (texts containing syntax-rules are evaluated in a forked child) are never failures, and texts nesting deeper than 64 are discarded. After a text that defines or assigns, only a constant is used as canary. Only the checked build profile is run (arithmetic overflow panics).",
+         "DESIGN.md section 4, C06; section 3.3"),
  "C12": ("parameterised garbage-loop templates (one per allocation kind) x live-set size x n vs 10n, oracle = plateau of heap/stack capacity (hooks) and process live bytes (counting allocator) + exactness of every collection against an independent reachability traversal",
          "20 templates (15 in-VM loops, 5 harness-driven sequences of top-level evaluations) x live set {0,10,1000} are run for n and 10n iterations (quick n=20000, thorough 200000); heap capacity, stack capacity and live bytes after 10n must be <= 1.5x those after n plus a fixed slack, the live set's checksum must be intact, and after every collection no cell unreachable by the harness' own traversal may remain allocated.",
          "Growth is decided at two sizes with a threshold that a one-cell-per-iteration leak exceeds several times over; live bytes come from a counting global allocator of the harness process.",
